@@ -6,6 +6,7 @@ import (
 	"flag"
 	"fmt"
 	"os"
+	"os/exec"
 	"path/filepath"
 	"runtime"
 	"sort"
@@ -366,6 +367,13 @@ func cmdCheck(args []string) int {
 	for _, oa := range overflowAssumed {
 		unprovedSeen = append(unprovedSeen, oa+" — 64-bit overflow not excluded; arithmetic treated as mathematical there (advisory obligation, not claimed)")
 	}
+	corpusBad := false
+	if *tier == "thorough" && len(viols) == 0 && os.Getenv("GOVC_REPO") == "" {
+		// thorough tier: the check is also run against the must-fail / must-pass corpus of this property (each patch
+		// applied to a scratch worktree of /repo): a check that no longer detects a change it used to detect, or that
+		// alarms on a behaviour-preserving rewrite, is reported as a check error (exit 2), never as a property verdict
+		corpusEvidence, corpusBad = runCorpus(*prop)
+	}
 	writeEvidence(*prop, *tier, seed, pr, lock[*prop], viols, known, knownObl, time.Since(start), unprovedSeen)
 	if os.Getenv("GOVC_SLOW") != "" {
 		allO := append(append([]*Oblig{}, pr.Obligs...), pr.Canary...)
@@ -384,7 +392,56 @@ func cmdCheck(args []string) int {
 	if vacuous > 0 {
 		return 2
 	}
+	if corpusBad {
+		fmt.Fprintf(os.Stderr, "govc: %s thorough: the must-fail/must-pass corpus is not handled as recorded (see evidence coverage.corpus)\n", *prop)
+		return 2
+	}
 	return 0
+}
+
+// corpusEvidence is filled by the thorough tier (runCorpus) and written into the evidence file.
+var corpusEvidence map[string]any
+
+// runCorpus runs tools/selftest.sh for the property and summarises its output.
+func runCorpus(prop string) (map[string]any, bool) {
+	cmd := exec.Command(filepath.Join(verifDir, "tools", "selftest.sh"), prop+"_")
+	cmd.Dir = verifDir
+	cmd.Env = append(os.Environ(), "GOFLAGS=-mod=mod", "GOPROXY=off")
+	out, _ := cmd.CombinedOutput()
+	res := map[string]any{"command": "tools/selftest.sh " + prop + "_"}
+	var lines []string
+	detected, missed, quiet, alarms, skipped := 0, 0, 0, 0, 0
+	for _, ln := range strings.Split(string(out), "\n") {
+		ln = strings.TrimSpace(ln)
+		if ln == "" {
+			continue
+		}
+		if len(ln) > 200 {
+			ln = ln[:200]
+		}
+		switch {
+		case strings.HasPrefix(ln, "ok ") && strings.Contains(ln, ": detected"):
+			detected++
+		case strings.HasPrefix(ln, "ok ") && strings.Contains(ln, ": no alarm"):
+			quiet++
+		case strings.HasPrefix(ln, "MISS"):
+			missed++
+		case strings.HasPrefix(ln, "FALSE-ALARM"):
+			alarms++
+		case strings.HasPrefix(ln, "SKIP"):
+			skipped++
+		default:
+			continue
+		}
+		lines = append(lines, ln)
+	}
+	res["mutants_detected"] = detected
+	res["mutants_missed"] = missed
+	res["harmless_quiet"] = quiet
+	res["harmless_alarms"] = alarms
+	res["skipped"] = skipped
+	res["lines"] = lines
+	return res, missed > 0 || alarms > 0
 }
 
 func writeReplay(prop, oblig string, body map[string]any) string {
@@ -488,6 +545,9 @@ func writeEvidence(prop, tier string, seed int, pr *propRun, lock []lockEntry, v
 		cov["known_findings"] = known
 		cov["known_finding_obligations"] = knownOpen
 		cov["notes"] = notes
+		if corpusEvidence != nil {
+			cov["corpus"] = corpusEvidence
+		}
 		st := keys(stubs)
 		cov["stubs_used"] = st
 		tb := []string{"govc VC generator (/verif/engine)", "z3-new 5.1.0 / z3 4.8.12 / cvc5 1.0.3"}
